@@ -286,6 +286,10 @@ class World:
         self.PIVOT = fresh_parse('SELECT k, id % 2 AS par, count(*) AS n FROM #t WHERE k IS NOT NULL GROUP BY k, par PIVOT BY k, par')
         self.FAIL = select([(col('nosuch'), None)], from_='t')
         self.BALIN = fresh_parse("SELECT balance, account IN (SELECT account FROM #postings WHERE number > 100) AS m FROM #postings WHERE year = 2019 AND month = 2")
+        # the same regular expression used by functions with different matching semantics (search / anchored match / ~)
+        self.GREP = select([(F('grep', C('b'), k), 'g'), (F('grepn', C('(a)|(b)'), k, C(0)), 'gn'), (A.Match(k, C('b')), 'm')], from_='t')
+        self.FINDFIRST = fresh_parse("SELECT findfirst('o', tags) AS f, findfirst('b', other_accounts) AS g, grep('o', narration) AS n FROM #postings WHERE year = 2019 AND month <= 2")
+        self.SUBST = select([(F('subst', C('b'), C('X'), k), 's'), (F('upper', k), 'u')], from_='t')
 
     def events(self):
         c = self.conn
@@ -304,6 +308,9 @@ class World:
             ('FAIL', lambda: c.execute(self.FAIL)),
             ('cursor2:P1(1,1,3)', lambda: self.cursor2.execute(self.P1, (1, 1, 3))),
             ('BALIN', lambda: c.execute(self.BALIN)),
+            ('GREP', lambda: c.execute(self.GREP)),
+            ('FINDFIRST', lambda: c.execute(self.FINDFIRST)),
+            ('SUBST', lambda: c.execute(self.SUBST)),
         ]
 
     def _many(self):
@@ -328,14 +335,21 @@ def run_event(fn):
         return ('crash', type(e).__name__, str(e)[:200])
 
 
+def _fresh_one(i):
+    w = World()
+    return run_event(w.events()[i][1])
+
+
 def fresh_outcomes():
-    """Each event on a fresh connection with freshly parsed statements."""
-    out = []
+    """Each event on a fresh connection with freshly parsed statements, each in its OWN pristine process
+    (forked from a parent that has not executed any statement), so that module-level state left behind
+    by other executions (caches keyed too coarsely, class-level accumulators) cannot leak into the
+    expected outcomes."""
+    import multiprocessing
     n = len(World().events())
-    for i in range(n):
-        w = World()
-        out.append(run_event(w.events()[i][1]))
-    return out
+    ctx = multiprocessing.get_context('fork')
+    with ctx.Pool(processes=min(8, n), maxtasksperchild=1) as pool:
+        return pool.map(_fresh_one, range(n), chunksize=1)
 
 
 def canon_state(w):
@@ -375,7 +389,7 @@ def fold_programs(seed, tier):
     return d1 + d2
 
 
-def shard_fn(shard, nshards, tier, seed, depth):
+def shard_fn(shard, nshards, tier, seed, depth, fresh):
     acc = Acc()
     thorough = tier == 'thorough'
     for i, (name, *_rest) in enumerate(templates()):
@@ -386,7 +400,6 @@ def shard_fn(shard, nshards, tier, seed, depth):
         if mine(i, shard, nshards):
             check_fold(te, seed, acc)
             acc.count('fold_expressions')
-    fresh = fresh_outcomes()
     names = [n for n, _ in World().events()]
     idx = 0
     for d in range(1, depth + 1):
@@ -419,7 +432,8 @@ def replay(c):
 
 def run(ctx):
     depth = ctx.pick(3, 4)
-    acc = run_shards(shard_fn, ctx.jobs, ctx.tier, ctx.seed, depth)
+    fresh = fresh_outcomes()       # before anything else is executed in this process tree
+    acc = run_shards(shard_fn, ctx.jobs, ctx.tier, ctx.seed, depth, fresh)
     n = acc.n
     nev = len(World().events())
     cov = {
